@@ -225,6 +225,21 @@ func checkC15(c *checkCtx) {
 				c.fail("C15.listeners-first", "no-listener", fmt.Sprintf("exec %d: a reader observed completion but OnDone never ran", v.ID))
 			}
 		}
+		// the future reports what the completion listeners were told: the listeners run before the result is
+		// published, and nothing that happens in between (a Cancel arriving while a listener runs) changes it
+		if d := v.listeners(-1, LExecDone); len(d) == 1 && v.OpEnd != nil && entryAsync(v.Op.Entry) {
+			c.cov("c15.done_payload_checked")
+			if v.Cancel1 != nil && v.Cancel1.Seq > d[0].Seq {
+				c.cov("c15.cancel_after_listeners")
+			}
+			val := v.OpEnd.Val
+			if !entryIsGet(v.Op.Entry) {
+				val = d[0].Val
+			}
+			if !sameOutcome(d[0].Val, d[0].Err, val, v.OpEnd.Err) {
+				c.fail("C15.listeners-agree", "done-result", fmt.Sprintf("exec %d: OnDone was told (%s, %s) but the ExecutionResult reports %s", v.ID, fmtVal(d[0].Val), fmtErr(d[0].Err), outcomeStr(v.OpEnd)))
+			}
+		}
 		// Cancel taking effect before completion under a retry or hedge policy
 		if v.Cancel1 != nil && v.OpEnd != nil {
 			core := -1
